@@ -164,6 +164,7 @@ type c16ResendCase struct {
 	keepAlive   bool
 	commonAuth  bool // digest credentials registered on the client instead of the request
 	alg         string
+	preset      string // "" | chrome | firefox | safari: ImpersonateXxx applied to the client (header map + header order + pseudo order)
 }
 
 var c16ResendNames = []string{"X-Api-Key", "x-api-KEY", "X-Dup", "x-dup", "X-DUP", "x_under_score", "Accept", "accept", "Accept-Language", "X-Multi",
@@ -254,6 +255,9 @@ func c16GenResend(r *rand.Rand, kinds []string) *c16ResendCase {
 	tc.keepAlive = r.Intn(4) != 0
 	tc.commonAuth = r.Intn(3) == 0
 	tc.alg = verifh.Pick(r, []string{"MD5", "SHA-256", "MD5-sess"})
+	if r.Intn(5) == 0 {
+		tc.preset = verifh.Pick(r, []string{"chrome", "firefox", "safari"})
+	}
 	return tc
 }
 
@@ -299,6 +303,18 @@ func c16BuildResend(tc *c16ResendCase, proto string, capture func(*http.Request)
 			return rt.RoundTrip(req)
 		}
 	})
+	switch tc.preset {
+	case "chrome":
+		c.ImpersonateChrome()
+	case "firefox":
+		c.ImpersonateFirefox()
+	case "safari":
+		c.ImpersonateSafari()
+	}
+	if tc.preset != "" {
+		// the TLS fingerprint (utls ClientHello) is C12's subject; the loopback origins use the plain stack
+		c.Transport.SetTLSHandshake(nil)
+	}
 	rq := c.R()
 	if tc.viaSetters {
 		c01ViaSetters(tc.cHdr, func(k, v string) { c.SetCommonHeader(k, v) }, func(k, v string) { c.Headers.Add(k, v) }, func(k, v string) { c.SetCommonHeaderNonCanonical(k, v) })
@@ -319,7 +335,12 @@ func c16BuildResend(tc *c16ResendCase, proto string, capture func(*http.Request)
 			}
 		}
 	} else {
-		c.Headers = tc.cHdr.Clone()
+		if c.Headers == nil {
+			c.Headers = http.Header{}
+		}
+		for k, vs := range tc.cHdr { // on top of a preset's header map
+			c.Headers[k] = append([]string(nil), vs...)
+		}
 		rq.Headers = tc.rHdr.Clone()
 	}
 	if len(tc.cOrder) > 0 {
@@ -433,7 +454,7 @@ func c16ResendOracle(kind string, first, second []byte, order []string) (bool, s
 // the Lean model, plus the independent line-multiset / order oracle.
 func TestVerif_C16_resend(t *testing.T) {
 	s := c01New(t, "C16", "resend",
-		"public API against a raw TCP HTTP/1.1 script peer that records every request byte for byte: kinds {single send, retry after 503 (once, twice), the same *Request sent again, digest auth (401 challenge MD5 / SHA-256 / -sess, credentials on the request or on the client) -> authorized re-send, digest re-send answered 503 and retried, redirect 307 (method + body kept) / 302 (POST becomes GET) inside the domain, redirect to another domain (localhost -> 127.0.0.1: credentials stripped), two redirects in a row} x client-level and request-level headers (0..5 / 0..9 keys drawn from canonical, lower-case, mixed-case and underscore spellings, names differing only in case, 1..3 values, Authorization / authorization / Cookie / Referer / referer / User-Agent / Accept-Encoding / Range / Trailer among them), assigned as maps or registered through SetHeader / SetHeaderNonCanonical / SetCommonHeader..., x order list none / request-level / client-level / both (subset, other case, unknown names, duplicates, writer-owned names) x pseudo-header order x request and client cookies x body none / 1 / 100 / 5000 bytes x compression on/off x keep-alive on/off; the header map of leg 1 is captured at the transport boundary, every leg's bytes are compared with the model rendering of secondHeader(kind, leg-1 header) (exact bytes; in header-order mode request line + line multiset + listed names in wire order + body); oracle: every line not owned by the mechanism or the writer appears in leg k exactly as often and in exactly the spelling of leg 1, no bookkeeping key, listed headers in list order; non-trivial = a second leg was observed")
+		"public API against a raw TCP HTTP/1.1 script peer that records every request byte for byte: kinds {single send, retry after 503 (once, twice), the same *Request sent again, digest auth (401 challenge MD5 / SHA-256 / -sess, credentials on the request or on the client) -> authorized re-send, digest re-send answered 503 and retried, redirect 307 (method + body kept) / 302 (POST becomes GET) inside the domain, redirect to another domain (localhost -> 127.0.0.1: credentials stripped), two redirects in a row} x client-level and request-level headers (0..5 / 0..9 keys drawn from canonical, lower-case, mixed-case and underscore spellings, names differing only in case, 1..3 values, Authorization / authorization / Cookie / Referer / referer / User-Agent / Accept-Encoding / Range / Trailer among them), assigned as maps or registered through SetHeader / SetHeaderNonCanonical / SetCommonHeader..., x order list none / request-level / client-level / both (subset, other case, unknown names, duplicates, writer-owned names) x pseudo-header order x request and client cookies x body none / 1 / 100 / 5000 bytes x compression on/off x keep-alive on/off x a fifth of the clients with an impersonation preset (ImpersonateChrome / Firefox / Safari: preset header map, header order and pseudo-header order, the caller's headers mixed in); the header map of leg 1 is captured at the transport boundary, every leg's bytes are compared with the model rendering of secondHeader(kind, leg-1 header) (exact bytes; in header-order mode request line + line multiset + listed names in wire order + body); oracle: every line not owned by the mechanism or the writer appears in leg k exactly as often and in exactly the spelling of leg 1, no bookkeeping key, listed headers in list order; non-trivial = a second leg was observed")
 	log.SetOutput(io.Discard)
 	defer log.SetOutput(os.Stderr)
 	peer := c16StartScriptPeer(t)
@@ -454,8 +475,8 @@ func TestVerif_C16_resend(t *testing.T) {
 		var legs []c16Leg
 		c, rq := c16BuildResend(tc, "h1", func(req *http.Request) { legs = append(legs, c16SnapLeg(req)) })
 		peer.reset(script...)
-		human := fmt.Sprintf("%s %s %s chdr=%q rhdr=%q setters=%v rorder=%q corder=%q pseudo=%v rcookies=%d ccookies=%d body=%d compression=%v keepalive=%v commonAuth=%v alg=%s",
-			tc.kind, tc.method, base+tc.path, tc.cHdr, tc.rHdr, tc.viaSetters, tc.rOrder, tc.cOrder, tc.pseudo, len(tc.rCookies), len(tc.cCookies), len(tc.body), tc.compression, tc.keepAlive, tc.commonAuth, tc.alg)
+		human := fmt.Sprintf("%s %s %s chdr=%q rhdr=%q setters=%v rorder=%q corder=%q pseudo=%v rcookies=%d ccookies=%d body=%d compression=%v keepalive=%v commonAuth=%v alg=%s preset=%q",
+			tc.kind, tc.method, base+tc.path, tc.cHdr, tc.rHdr, tc.viaSetters, tc.rOrder, tc.cOrder, tc.pseudo, len(tc.rCookies), len(tc.cCookies), len(tc.body), tc.compression, tc.keepAlive, tc.commonAuth, tc.alg, tc.preset)
 		s.Begin(fmt.Sprintf("resend-%d", i), human)
 		var err error
 		p, crashed := verifh.Safely(func() {
@@ -482,6 +503,9 @@ func TestVerif_C16_resend(t *testing.T) {
 		}
 		if tc.viaSetters {
 			s.Count("via-setters")
+		}
+		if tc.preset != "" {
+			s.Count("preset:" + tc.preset)
 		}
 		for k, lk := range legKinds {
 			leg := legs[k]
@@ -521,7 +545,7 @@ func TestVerif_C16_resend(t *testing.T) {
 		}
 	}
 	s.Need(t, "kind:plain", "kind:retry", "kind:retry2", "kind:again", "kind:digest", "kind:digest-retry", "kind:redir307", "kind:redir302", "kind:redir-cross", "kind:redir-twice",
-		"leg:same", "leg:digest", "leg:redir0", "leg:redir1", "order-mode", "plain-mode", "via-setters")
+		"leg:same", "leg:digest", "leg:redir0", "leg:redir1", "order-mode", "plain-mode", "via-setters", "preset:chrome", "preset:firefox", "preset:safari")
 	s.Finish()
 }
 
@@ -632,8 +656,8 @@ func TestVerif_C16_resendh23(t *testing.T) {
 		o := origins[proto]
 		o.reset(script...)
 		c, rq := c16BuildResend(tc, proto, func(*http.Request) {})
-		human := fmt.Sprintf("%s %s %s %s chdr=%q rhdr=%q setters=%v rorder=%q corder=%q pseudo=%v rcookies=%d ccookies=%d body=%d commonAuth=%v alg=%s",
-			proto, tc.kind, tc.method, tc.path, tc.cHdr, tc.rHdr, tc.viaSetters, tc.rOrder, tc.cOrder, tc.pseudo, len(tc.rCookies), len(tc.cCookies), len(tc.body), tc.commonAuth, tc.alg)
+		human := fmt.Sprintf("%s %s %s %s chdr=%q rhdr=%q setters=%v rorder=%q corder=%q pseudo=%v rcookies=%d ccookies=%d body=%d commonAuth=%v alg=%s preset=%q",
+			proto, tc.kind, tc.method, tc.path, tc.cHdr, tc.rHdr, tc.viaSetters, tc.rOrder, tc.cOrder, tc.pseudo, len(tc.rCookies), len(tc.cCookies), len(tc.body), tc.commonAuth, tc.alg, tc.preset)
 		id := fmt.Sprintf("resendh23-%d", i)
 		s.Begin(id, human)
 		var err error
